@@ -138,7 +138,7 @@ def run(ctx):
         for fn in sorted(os.listdir(CORPUS)):
             with open(os.path.join(CORPUS, fn)) as f:
                 specs.append(('corpus:' + fn, json.load(f)['stmt']))
-    for _ in range(350 if quick else 8000):
+    for _ in range(350 if quick else 2500):
         specs.append(('gen', H.gen_stmt(rng)))
     for origin, sp in specs:
         kind, ops = sp
@@ -156,7 +156,7 @@ def run(ctx):
         meta.append(('stmt', sp, [(p['parts'], items) for p, items in obs]))
 
     # ---- batches
-    for _ in range(80 if quick else 2000):
+    for _ in range(80 if quick else 600):
         bs = [H.gen_stmt(rng, maxn=4) for _ in range(rng.randint(1, 4))]
         # statements the ORM would batch: no pending renumbering quirks needed; keep as generated
         try:
@@ -181,7 +181,7 @@ def run(ctx):
     # ---- query-set chains
     M = H.chain_model()
     from cassandra.cqlengine import CQLEngineException
-    for _ in range(220 if quick else 4000):
+    for _ in range(220 if quick else 1200):
         ops = H.gen_chain(rng)
         action = rng.choice(['select', 'select', 'delete', 'update'])
         try:
